@@ -539,3 +539,19 @@ Lemma truncated_direct_push_refuted :
   truncated_tail [x05; x01] = true /\
   from_bytes [x05; x01] = Ok [BPush [x01]] /\ to_bytes [BPush [x01]] = [x01; x01].
 Proof. repeat split; vm_compute; reflexivity. Qed.
+
+(* parsing is injective outside the known-finding class: two accepted byte strings with the same parse are equal,
+   and the serialisation has the input's length *)
+Lemma parse_injective b1 b2 s :
+  from_bytes b1 = Ok s -> from_bytes b2 = Ok s ->
+  truncated_tail b1 = false -> truncated_tail b2 = false -> b1 = b2.
+Proof.
+  intros H1 H2 T1 T2.
+  destruct (script_roundtrip b1 s H1 T1) as [E1 _].
+  destruct (script_roundtrip b2 s H2 T2) as [E2 _].
+  rewrite <- E1. exact E2.
+Qed.
+
+Lemma roundtrip_length bs s :
+  from_bytes bs = Ok s -> truncated_tail bs = false -> length (to_bytes s) = length bs.
+Proof. intros H T. destruct (script_roundtrip bs s H T) as [E _]. rewrite E. reflexivity. Qed.
